@@ -13,6 +13,10 @@ func dumpCmd(args []string) {
 		fmt.Fprintln(os.Stderr, err)
 		os.Exit(2)
 	}
+	if len(args) > 1 && args[0] == "facts" {
+		dumpFacts(p, args[1])
+		return
+	}
 	if len(args) > 0 && args[0] == "methods" {
 		for _, m := range nativeMethods(p) {
 			fmt.Printf("== %s.%s  (%s)\n", m.Proto, m.Name, shortName(m.Fn))
@@ -46,6 +50,21 @@ func dumpCmd(args []string) {
 				for _, e := range p.effects(f) {
 					fmt.Printf("   effect: %s\n", e)
 				}
+			}
+		}
+	}
+}
+
+func dumpFacts(p *Program, name string) {
+	for _, f := range p.Funcs {
+		if !strings.Contains(shortName(f), name) {
+			continue
+		}
+		F := FactsOf(f)
+		for _, b := range f.Blocks {
+			fmt.Printf("block %d (%s): reach=%v nfacts=%d\n", b.Index, b.Comment, F.in[b] != nil, len(F.in[b]))
+			for ft := range F.in[b] {
+				fmt.Printf("    %s = %v\n", ft.cond.Name(), ft.truth)
 			}
 		}
 	}
